@@ -2,7 +2,7 @@
    Statements only; proofs in Move/MoveProofs.v. Quantified over every row of the regenerated table,
    both ASU conventions, every hkl, and every symmetry-consistent phase function on the sphere. *)
 From GV Require Import Sym.AsuDefs Sym.AsuProofs Sym.AsuLift Sym.AsuSpec Sym.OpProofs Move.Move Move.MoveProofs Move.Expand Move.ExpandProofs.
-From GV Require Import Sym.OpProofs Move.Reindex.
+From GV Require Import Sym.OpProofs Move.Reindex Move.PlusMinus Move.PlusMinusProofs.
 Local Open Scope Z_scope.
 
 (* the algebraic heart: phase transport composes, h.t1 + (hR1).t2 = h.(t1 + R1 t2) *)
@@ -113,3 +113,50 @@ Theorem C13_reindex_example :
   tran (op_mul (combine' ex_Xi ex_g) ex_X) = (0,0,12) /\ dot (0,1,0) (tran ex_g) = 12.
 Proof. exact reindex_hypotheses_hold. Qed.
 Print Assumptions C13_reindex_example.
+
+(* ------------------------------------------------------------------------------------------------------------
+   The (+)/(-) assignment (Mtz::positions_of_plus_minus_columns + the swap in Mtz::ensure_asu, Move/PlusMinus.v).
+   A pair is reported for a column whose label holds "(+)" (first occurrence) exactly when a column with the same
+   label but '-' as the sign, the same type and the same dataset exists ANYWHERE in the file - before or after it;
+   the partner is the first such column, never the column itself. *)
+Theorem C13_plus_minus_pairs_sound : forall cols i j, In (i, j) (pm_pairs cols) ->
+  exists c d, nth_error cols i = Some c /\ nth_error cols j = Some d /\ is_minus_of c d /\ i <> j /\
+    forall n y, (n < j)%nat -> nth_error cols n = Some y -> ~ is_minus_of c y.
+Proof. exact pm_pairs_sound. Qed.
+Print Assumptions C13_plus_minus_pairs_sound.
+
+Theorem C13_plus_minus_pairs_complete : forall cols i c m d,
+  nth_error cols i = Some c -> nth_error cols m = Some d -> is_minus_of c d ->
+  exists j, In (i, j) (pm_pairs cols) /\ (j <= m)%nat.
+Proof. exact pm_pairs_complete. Qed.
+Print Assumptions C13_plus_minus_pairs_complete.
+
+(* For an ordinary column set (a label has at most one '(', no two columns share label, type and dataset) the pairs
+   are disjoint; the swap then exchanges the two values of every pair, leaves every other column of the row alone,
+   and doing it twice (moving back through the Friedel mate) restores the row. *)
+Theorem C13_plus_minus_swap : forall cols row, ordinary cols -> length row = length cols ->
+  let pairs := pm_pairs cols in
+  (forall i j, In (i, j) pairs ->
+     nth i (apply_swaps pairs row) 0 = nth j row 0 /\ nth j (apply_swaps pairs row) 0 = nth i row 0) /\
+  (forall k, ~ In k (flat pairs) -> nth k (apply_swaps pairs row) 0 = nth k row 0) /\
+  apply_swaps pairs (apply_swaps pairs row) = row.
+Proof. exact plus_minus_swap. Qed.
+Print Assumptions C13_plus_minus_swap.
+
+(* non-vacuity: a file that stores F(-) before F(+), the I pair interleaved with DANO, sigmas after their values,
+   and an E(+) without partner: the column set is ordinary and the three pairs (two of them backwards) are found *)
+Definition ex_columns : list column :=
+  [mkCol [72] 72 1;
+   mkCol [75] 72 1;
+   mkCol [76] 72 1;
+   mkCol [70; 40; 45; 41] 71 1;
+   mkCol [83; 73; 71; 70; 40; 45; 41] 76 1;
+   mkCol [73; 40; 43; 41] 75 1;
+   mkCol [68; 65; 78; 79] 68 1;
+   mkCol [70; 40; 43; 41] 71 1;
+   mkCol [73; 40; 45; 41] 75 1;
+   mkCol [83; 73; 71; 70; 40; 43; 41] 76 1;
+   mkCol [69; 40; 43; 41] 82 1].
+Example C13_plus_minus_example :
+  ordinary ex_columns /\ pm_pairs ex_columns = [(5, 8); (7, 3); (9, 4)]%nat.
+Proof. split; [apply ordinary_by_test; vm_compute; reflexivity | vm_compute; reflexivity]. Qed.
